@@ -51,15 +51,13 @@ Proof.
   rewrite <- (c17_norm_strip b), Hs, c17_norm_strip. apply dump_view_equal. exact Hv.
 Qed.
 
-(* ---- what remains wrong: a file with nothing to print *)
-Theorem dump_refuted_empty_file :
-  exists (src : bytes) (a : file),
-    parse (B "main.thrift") src = Some a /\
-    forall fmt, parse (B "main.thrift") (dump fmt a) = None.
-Proof.
-  exists (B "// only a comment"), (empty_file (B "main.thrift")).
-  split; [vm_compute; reflexivity | intro fmt; reflexivity].
-Qed.
+(* ---- a file with nothing to print is dumped as the empty text, which the parser reads as the
+   empty file (since the repair of parser.parse(), commit 6a3edb3; before it the zero-byte
+   document was an error: [parse_unrepaired]) *)
+Theorem dump_empty_file n fmt :
+  dump fmt (empty_file n) = [] /\ parse n (dump fmt (empty_file n)) = Some (empty_file n) /\
+  dump_ok fmt (empty_file n) = true /\ parse_unrepaired n (dump fmt (empty_file n)) = None.
+Proof. repeat split. Qed.
 
 (* ---- not constrained by the property: the cpp_type of a container is not written *)
 Definition cpp_type_sample : file :=
